@@ -180,7 +180,17 @@ def _case_from_call(kind, f, s, bounds, flag, verdict, origin):
             index, box, npts = _reduce_box([f], [], bounds)
         if npts > MAXBOX:
             return ("skip", "box-larger-than-%d-points" % MAXBOX)
-        e = sympy_to_ast(judged, index)
+        try:
+            e = sympy_to_ast(judged, index)
+        except Unsupported as u:
+            if kind == "d" and str(u) in ("Subs", "Derivative") and verdict.name != "UNKNOWN":
+                # derivative through a ceiling: sympy leaves Derivative(ceiling) unevaluated, so the formula the
+                # code judged has no pointwise value.  Not decisive; only finite-difference monotonicity of f
+                # is reported (e = 0 makes every sign statement true).
+                return {"kind": "d", "e": {"h": "int", "v": 0}, "b": box, "v": VNAME[verdict.name], "flag": False,
+                        "f": sympy_to_ast(f, index), "s": index[s], "origin": origin, "fdonly": True,
+                        "text": str(judged)[:300], "ftext": str(f)[:300], "skip_reason": "unsupported-head:" + str(u)}
+            raise
         fa = {"h": "none"}
         if kind == "d":
             try:
@@ -376,6 +386,11 @@ def _judge(ck, cases, stats, workdir, ck_for_tlc=True):
     failing = []
     for c in cases:
         v = verdicts[c["id"]]
+        if c.get("fdonly"):
+            stats["fd_only"][v["mono"]] = stats["fd_only"].get(v["mono"], 0) + 1
+            if v["mono"] == "no" and len(stats["fd_only_samples"]) < 5:
+                stats["fd_only_samples"].append({"f": c["ftext"], "box": c["b"], "symbol": c["s"], "verdict": c["v"]})
+            continue
         stats["validated"] += 1
         stats["by_kind"][c["kind"] + ":" + c["origin"]] = stats["by_kind"].get(c["kind"] + ":" + c["origin"], 0) + 1
         stats["by_verdict"][c["v"]] = stats["by_verdict"].get(c["v"], 0) + 1
@@ -457,7 +472,7 @@ def run(ck: Check):
     stats = {"validated": 0, "by_kind": {}, "by_verdict": {}, "undefined_or_overflow": 0,
              "precondition_not_established": 0, "finite_difference_monotonicity_fails": 0,
              "finite_difference_monotonicity_holds": 0, "finite_difference_samples": [],
-             "skipped": {}, "call_timeouts": 0, "generated_records": 0, "b_compared": 0, "b_flag_compared": 0}
+             "fd_only": {}, "fd_only_samples": [], "skipped": {}, "call_timeouts": 0, "generated_records": 0, "b_compared": 0, "b_flag_compared": 0}
     timings = {}
     cases = []
     seen_case = set()
@@ -471,7 +486,9 @@ def run(ck: Check):
             return
         seen_case.add(key)
         cases.append(c)
-        if c["v"] != "unknown":
+        if c.get("fdonly"):
+            stats["skipped"][c["skip_reason"]] = stats["skipped"].get(c["skip_reason"], 0) + 1
+        elif c["v"] != "unknown":
             ck.count_nontrivial(key)
 
     # ---- (2) harvest real calls first (in this process, before any fork)
@@ -483,7 +500,7 @@ def run(ck: Check):
         add_case(_case_from_call(kind, f, s, bounds, flag, verdict, "mapper"))
     timings["harvest_s"] = round(time.time() - t0, 1)
     ck.extra["harvest"] = hlog
-    if not calls:
+    if not calls and not any("mapper_error" in v for v in hlog.values()):
         raise Machinery("the mapper runs made no geq_leq_zero / diff_geq_leq_zero call: %s" % hlog)
 
     # ---- (1) generated formulas
